@@ -73,6 +73,9 @@ func fixedScenarios() []*Scenario {
 		// metrics over OTLP to a collector that is gone: its failing shutdown must not keep the traces from being flushed
 		{MetDead: true, Tracing: true, Starts: []int{bOK}, Readies: []int{bOK}, Shuts: []int{bOK}, Stops: []int{bOK}, Reqs: []Rel{{Kind: "D"}}},
 		{MetDead: true, Tracing: true, Starts: []int{bOK, bErr}, Stops: []int{bOK}},
+		// metrics over OTLP to a collector that fails the final flush: the meter provider must still be shut down
+		{MetDead: true, MetFlaky: true, Starts: []int{bOK}, Shuts: []int{bOK}, Stops: []int{bOK}},
+		{MetDead: true, MetFlaky: true, Tracing: true, Starts: []int{bOK, bErr}, Stops: []int{bOK}},
 		// start-up fails right after startObservability while the metrics server goroutine is still on its way
 		{Metrics: true, MetricsRace: true, Listen: lBusy, Readies: []int{bOK}, Stops: []int{bOK}},
 		{Metrics: true, MetricsRace: true, Tracing: true, Listen: lBad},
@@ -84,6 +87,10 @@ func fixedScenarios() []*Scenario {
 		{NReload: 2, Shuts: []int{bOK}, Stops: []int{bOK}, Rounds: []Round{{Trig: 1, CancelAt: 1}}},
 		// bad address
 		{Tracing: true, Listen: lBad, Readies: []int{bOK}, Shuts: []int{bOK}, Stops: []int{bOK}},
+		// … with more hooks to come after the one the signal arrives in: the round still runs all its hooks
+		{NReload: 3, Shuts: []int{bOK}, Stops: []int{bOK}, Rounds: []Round{{Trig: 1, CancelAt: 0}}},
+		{NReload: 3, Shuts: []int{bOK}, Stops: []int{bOK}, Rounds: []Round{{Trig: 0, CancelAt: -1}, {Trig: 1, Beh: []int{bOK, bOK, bErr}, CancelAt: 1}}},
+		{NReload: 2, Stops: []int{bOK}, Rounds: []Round{{Trig: 0, CancelAt: 0}}},
 		// StartTLS: the key pair cannot be loaded (K09f); StartTLS and StartMTLS: the full sequence with requests in flight
 		{Proto: pTLS, Metrics: true, Tracing: true, Listen: lCert, Starts: []int{bOK}, Readies: []int{bOK, bOK}, Shuts: []int{bOK}, Stops: []int{bOK}},
 		{Proto: pTLS, Metrics: true, Tracing: true, Starts: []int{bOK}, Readies: []int{bOK}, NReload: 1, Shuts: []int{bOK, bOK}, Stops: []int{bOK, bPanic},
@@ -207,6 +214,7 @@ func genScenario(r *hx.Rand, tier string) *Scenario {
 	// particular configurations
 	if !sc.Metrics && r.Chance(1, 5) {
 		sc.MetDead = true
+		sc.MetFlaky = r.Chance(1, 3)
 	}
 	if r.Chance(1, 10) {
 		if len(sc.Shuts) > 0 && r.Chance(1, 2) {
